@@ -59,6 +59,8 @@ def run(tier, argv):
             bad.append({"what": "rejected-by-its-own-Validate", "schema": e["text"], "out": e.get("out"), "error": None, "abstract": e["schema"], "env": e["env"]})
         if e.get("error"):
             bad.append({"what": "error", "schema": e["text"], "out": None, "error": e["error"], "abstract": e["schema"], "env": e["env"]})
+    for b in semcommon.diff_tier(work, rep, hbin, PROP, 30000 if quick else 1000000):
+        bad.append({"what": b["want"] + " (differs from the frozen copy)", "schema": b["schema"], "out": b.get("doc"), "error": None, "abstract": b["abstract"], "env": b["env"]})
     for e in lines[:: max(1, len(lines) // 6)]:
         rep.sample({"schema": e["text"], "example": e.get("out")})
     rep.cov["evaluations"] = len(lines)
